@@ -6,8 +6,9 @@
    tree ::= F | D[<name hex>=<tree>,...]
    Output: M <id>, M <id>#bp, M <id>#cow = model of afero (path.go / match.go as in /repo now),
            M <id>#std = model of path/filepath, S <id> (S <id>#bp for rwalk/rglob) = what the property
-           demands of afero: the std model's result; for glob only when the pattern is well-formed without
-           escapes.  The wrappers #bp/#cow are judged by the Go-side oracle against filepath itself. *)
+           demands of afero: the std model's result — for glob on every pattern below filepath's recursion
+           limit (escapes and malformed patterns included; Props/C16.v C16_glob_eq_all).
+           The wrappers #bp/#cow are judged by the Go-side oracle against filepath itself. *)
 open Model
 open Driver_common
 
@@ -83,7 +84,7 @@ let run_glob variants toks =
     let a = glob_s (afero_glob t p) and s = glob_s (std_glob t p) in
     List.iter (fun v -> Printf.printf "M %s%s %s\n" id v a) variants;
     Printf.printf "M %s#std %s\n" id s;
-    if well_formed p then Printf.printf "S %s%s %s\n" id (List.hd variants) s
+    if List.length p < 10000 then Printf.printf "S %s%s %s\n" id (List.hd variants) s
   | _ -> failwith "bad glob line"
 
 let run_match toks =
